@@ -3,12 +3,12 @@
    one-shot functions memmem::find / memmem::rfind.
 
    Every bound has the shape  K * (|h| + 1) + c1 * |x| + c0  with K, c1, c0 numerals:
-   the work is linear in haystack plus needle length.  One branch has only a weak
-   (product) bound here: forward Two-Way in the small-period case WITH an active
-   prefilter (searcher_find_cost_small_pre_weak); see DESIGN.md section 0.5. *)
+   the work is linear in haystack plus needle length, for every needle: the forward
+   small-period case WITH an active prefilter (where the prefilter throws the Two-Way
+   memory away) is covered by Sub/CostTwoWaySmall.v (Fine-Wilf spacing argument). *)
 From Memchr Require Import Spec SpecProofs Params Base.Cost Mem.Wrappers Mem.WrappersProofs Mem.CostMem
   Sub.IsEqual Sub.Pair Sub.PairProofs Sub.PackedPair Sub.PackedPairProofs Sub.RabinKarp Sub.CostBlocks
-  Sub.Prefilter Sub.TwoWay Sub.TwoWayCert Sub.TwoWayFwdProofs Sub.CostTwoWay Sub.CostTwoWayAll
+  Sub.Prefilter Sub.TwoWay Sub.TwoWayCert Sub.TwoWayFwdProofs Sub.CostTwoWay Sub.CostTwoWayAll Sub.CostTwoWaySmall
   Sub.Searcher Sub.SearcherProofs Sub.CostPrefilter.
 
 Local Open Scope nat_scope.
@@ -24,7 +24,7 @@ Lemma params_cost_ok :
 Proof. repeat split; vm_compute; congruence. Qed.
 
 Definition K_pre : nat := 3 + 19 + 19 * 257.       (* Two-Way with a prefilter *)
-Definition K_find : nat := 4905.
+Definition K_find : nat := 4906.
 Definition K_rfind : nat := 69.
 
 Lemma K_pre_val : K_pre = 4905.  Proof. reflexivity. Qed.
@@ -75,10 +75,10 @@ Proof.
 Qed.
 
 Theorem searcher_find_cost s st :
-  strat_for ar x s -> strat_small s -> ~ small_pre s ->
+  strat_for ar x s -> strat_small s ->
   satc (searcher_find ar s st a h x) (fun _ c => c <= K_find * (length h + 1) + length x + 3).
 Proof.
-  intros [Hrk Hs] Hsmall Hnsp. unfold searcher_find.
+  intros [Hrk Hs] Hsmall. unfold searcher_find.
   destruct (length h <? length x) eqn:El.
   { apply satc_ret. lia. }
   apply Nat.ltb_ge in El.
@@ -114,51 +114,28 @@ Proof.
   - destruct Hs as (Hreach & Htw & Hp).
     destruct (rk_is_fast h) eqn:Ef.
     + apply find_rk_branch; [exact El|apply rk_is_fast_lt; exact Ef].
-    + destruct (tw_shift tw) as [q|sft] eqn:Esh.
-      { exfalso. apply Hnsp. exists q. reflexivity. }
-      assert (1 <= length x) as Hn1.
+    + assert (1 <= length x) as Hn1.
       { unfold tw_reach_fwd in Hreach. apply andb_prop in Hreach as [H2 _]. apply Nat.leb_le in H2. lia. }
       destruct Hsmall as [Ho Hk].
+      assert (pre_cost x (prefilter_find ar p) 19 (19 * 257)) as Hpc.
+      { apply prefilter_find_cost; [exact Hx|exact Hp|lia|].
+        intros f Ef'. rewrite Ef' in Hk. lia. }
+      destruct (tw_shift tw) as [q|sft] eqn:Esh.
+      { (* small period: the prefilter forgets the memory; Sub/CostTwoWaySmall.v *)
+        eapply satc_weaken.
+        { apply (tw_find_cost_pre_small_sharp_all x h tw (prefilter_find ar p) a st 19 (19 * 257) q Hn1 Htw Esh).
+          - apply prefilter_find_pre_ok; assumption.
+          - exact Hsat.
+          - exact Hpc.
+          - exact Hh. }
+        cbn beta. intros _ c Hc. change (4 + 19 + 19 * 257) with 4906 in Hc. unfold K_find. lia. }
       eapply satc_weaken.
       { apply (tw_find_cost_pre_large_all x h tw (prefilter_find ar p) a st 19 (19 * 257) sft Hn1 Htw Esh).
         - apply prefilter_find_pre_ok; assumption.
         - exact Hsat.
-        - apply prefilter_find_cost; [exact Hx|exact Hp|lia|].
-          intros f Ef'. rewrite Ef' in Hk. lia.
+        - exact Hpc.
         - exact Hh. }
       cbn beta. intros _ c Hc. change (3 + 19 + 19 * 257) with 4905 in Hc. unfold K_find. lia.
-Qed.
-
-(* the remaining branch: the bound is a product, not a sum (partial) *)
-Theorem searcher_find_cost_small_pre_weak s st :
-  strat_for ar x s -> strat_small s -> small_pre s ->
-  satc (searcher_find ar s st a h x) (fun _ c => c <= (length x + K_find) * (length h + 1)).
-Proof.
-  intros [Hrk Hs] Hsmall Hsp. unfold searcher_find.
-  destruct (length h <? length x) eqn:El.
-  { apply satc_ret. lia. }
-  apply Nat.ltb_ge in El.
-  destruct params_cost_ok as (Hpm & Hfb & _ & _ & Hsat).
-  unfold strat_small, small_pre in *.
-  destruct (s_strat s) as [|b|w|tw|tw p] eqn:Es; try contradiction.
-  destruct Hsp as [q Esh]. destruct Hs as (Hreach & Htw & Hp).
-  assert (2 <= length x) as Hn2.
-  { unfold tw_reach_fwd in Hreach. apply andb_prop in Hreach as [H2 _]. apply Nat.leb_le in H2. lia. }
-  assert (1 <= length x) as Hn1 by lia.
-  destruct (rk_is_fast h) eqn:Ef.
-  - eapply satc_weaken; [apply find_rk_branch; [exact El|apply rk_is_fast_lt; exact Ef]|].
-    cbn beta. intros _ c Hc. unfold K_find in *.
-    assert (length x + 3 <= length x * (length h + 1)) by nia. lia.
-  - destruct Hsmall as [Ho Hk].
-    eapply satc_weaken.
-    { apply (tw_find_cost_pre_small_weak_all x h tw (prefilter_find ar p) a st 19 (19 * 257) q Hn1 Htw Esh).
-      - apply prefilter_find_pre_ok; assumption.
-      - exact Hsat.
-      - apply prefilter_find_cost; [exact Hx|exact Hp|lia|].
-        intros f Ef'. rewrite Ef' in Hk. lia.
-      - exact Hh. }
-    cbn beta. intros _ c Hc. unfold K_find.
-    assert (length x + 19 + 19 * 257 + 3 = length x + 4905) as Eq by lia. rewrite Eq in Hc. exact Hc.
 Qed.
 
 (* SearcherRev::rfind: no prefilter, no packed searcher *)
@@ -272,88 +249,9 @@ Variables (ar : arch) (x h : list N) (a : nat).
 Hypothesis Hx : bytes_ok x.
 Hypothesis Hh : bytes_ok h.
 
-(* does the needle get the small-period Two-Way searcher? *)
-Definition small_period (x : list N) : Prop :=
-  exists tw q, fst (tw_new x) = Ok tw /\ tw_shift tw = Small q.
-
-Lemma small_pre_small_period s : strat_for ar x s -> small_pre s -> small_period x.
-Proof.
-  intros [_ Hs] Hsp. unfold small_pre in Hsp. destruct (s_strat s) as [| | | |tw p]; try contradiction.
-  destruct Hsp as [q Hq]. destruct Hs as (_ & Htw & _). exists tw, q. split; assumption.
-Qed.
-
 Theorem finder_cost cfg rank :
-  ~ small_period x ->
   satc (f <- finder_new cfg rank ar x;; finder_find ar f a h)
        (fun _ c => c <= K_find * (length h + 1) + 6 * length x + 11).
-Proof.
-  intros Hnsp. unfold finder_new, finder_find.
-  eapply satc_bind.
-  { eapply satc_bind.
-    { apply (satc_with_satq2 _ _ _ _ _ _ (searcher_new_sat cfg rank ar x) (searcher_new_small cfg rank ar x)
-               (searcher_new_cost cfg rank ar x)). }
-    intros s c1 (Hs1 & Hs2 & Hc1). apply satc_ret.
-    instantiate (1 := fun f c => f_needle f = x /\ strat_for ar x (f_searcher f) /\ strat_small (f_searcher f)
-                                 /\ c <= 5 * length x + 8).
-    cbn. repeat split; try assumption; try lia. apply Hs1. apply Hs1. }
-  intros f c1 (Hn & Hs1 & Hs2 & Hc1). rewrite Hn.
-  eapply satc_bind.
-  { apply (searcher_find_cost ar x h a Hx Hh (f_searcher f) prestate_new Hs1 Hs2).
-    intros Hsp. apply Hnsp. exact (small_pre_small_period _ Hs1 Hsp). }
-  intros r c2 Hc2. cbn beta in Hc2. apply satc_ret. lia.
-Qed.
-
-(* without a prefilter the bound holds for every needle *)
-Theorem finder_cost_noprefilter rank :
-  satc (f <- finder_new PNone rank ar x;; finder_find ar f a h)
-       (fun _ c => c <= K_find * (length h + 1) + 6 * length x + 11).
-Proof.
-  unfold finder_new, finder_find.
-  assert (satq (new_ev x) (searcher_new PNone rank ar x)
-            (fun s => match s_strat s with STwoWayPre _ _ => False | _ => True end)) as Hnp.
-  { (* PNone never builds a prefilter *)
-    unfold searcher_new. destruct (length x <=? 1) eqn:E.
-    - destruct x as [|b t]; (eapply satq_bind; [apply label_sat|]); intros _ _; apply satq_ret; exact I.
-    - apply Nat.leb_gt in E.
-      destruct pair_params_ok as [Hcap Hskip].
-      destruct (pair_with_ranker_spec rank x Hcap Hskip) as [_ Hsome].
-      destruct (Hsome ltac:(lia)) as (i1 & i2 & Hr & Hne & H1 & H2 & _).
-      eapply satq_bind.
-      { instantiate (1 := fun pr => pr = Some (i1, i2)).
-        exists (Some (i1, i2)). split; [exact Hr|]. split; [reflexivity|].
-        rewrite pair_with_ranker_quiet. constructor. }
-      intros pr ->.
-      assert (i1 =? i2 = false) as -> by (apply Nat.eqb_neq; exact Hne). cbn [negb]. rewrite bind_guard_true.
-      assert (satq (new_ev x) (searcher_twoway x (rk_new x) None)
-                (fun s => match s_strat s with STwoWayPre _ _ => False | _ => True end)) as Htw.
-      { unfold searcher_twoway. eapply satq_bind; [apply tw_new_sat|]. intros tw _.
-        eapply satq_bind; [apply label_sat|]. intros _ _. apply satq_ret. exact I. }
-      assert (forall isa lp lpre, satq (new_ev x) (with_vec PNone x (rk_new x) isa lp lpre i1 i2)
-                (fun s => match s_strat s with STwoWayPre _ _ => False | _ => True end)) as Hvec.
-      { intros isa lp lpre. unfold with_vec.
-        destruct (pw_new_ok isa x i1 i2 H1 H2) as [w Hw]. rewrite Hw, bind_lift_ok.
-        destruct (do_packed_search x); [|exact Htw].
-        eapply satq_bind; [apply label_sat|]. intros _ _. apply satq_ret. exact I. }
-      destruct ar as [[| |]| | |]; first [apply Hvec|exact Htw]. }
-  eapply satc_bind.
-  { eapply satc_bind.
-    { eapply satc_with_satq; [exact Hnp|].
-      apply (satc_with_satq2 _ _ _ _ _ _ (searcher_new_sat PNone rank ar x) (searcher_new_small PNone rank ar x)
-               (searcher_new_cost PNone rank ar x)). }
-    intros s c1 (Hs0 & Hs1 & Hs2 & Hc1). apply satc_ret.
-    instantiate (1 := fun f c => f_needle f = x /\ strat_for ar x (f_searcher f) /\ strat_small (f_searcher f)
-                                 /\ ~ small_pre (f_searcher f) /\ c <= 5 * length x + 8).
-    cbn. repeat split; try assumption; try lia; try apply Hs1.
-    unfold small_pre. destruct (s_strat s); tauto. }
-  intros f c1 (Hn & Hs1 & Hs2 & Hs3 & Hc1). rewrite Hn.
-  eapply satc_bind.
-  { apply (searcher_find_cost ar x h a Hx Hh (f_searcher f) prestate_new Hs1 Hs2 Hs3). }
-  intros r c2 Hc2. cbn beta in Hc2. apply satc_ret. lia.
-Qed.
-
-Theorem finder_cost_small_period_weak cfg rank :
-  satc (f <- finder_new cfg rank ar x;; finder_find ar f a h)
-       (fun _ c => c <= (length x + K_find) * (length h + 1) + 6 * length x + 11).
 Proof.
   unfold finder_new, finder_find.
   eapply satc_bind.
@@ -365,15 +263,9 @@ Proof.
                                  /\ c <= 5 * length x + 8).
     cbn. repeat split; try assumption; try lia. apply Hs1. apply Hs1. }
   intros f c1 (Hn & Hs1 & Hs2 & Hc1). rewrite Hn.
-  assert (small_pre (f_searcher f) \/ ~ small_pre (f_searcher f)) as [Hsp|Hsp].
-  { unfold small_pre. destruct (s_strat (f_searcher f)) as [| | | |tw p]; try (right; tauto).
-    destruct (tw_shift tw) as [q|q]; [left; exists q; reflexivity|right; intros [q' Hq']; discriminate]. }
-  - eapply satc_bind.
-    { apply (searcher_find_cost_small_pre_weak ar x h a Hx Hh (f_searcher f) prestate_new Hs1 Hs2 Hsp). }
-    intros r c2 Hc2. cbn beta in Hc2. apply satc_ret. lia.
-  - eapply satc_bind.
-    { apply (searcher_find_cost ar x h a Hx Hh (f_searcher f) prestate_new Hs1 Hs2 Hsp). }
-    intros r c2 Hc2. cbn beta in Hc2. apply satc_ret. unfold K_find in *. nia.
+  eapply satc_bind.
+  { apply (searcher_find_cost ar x h a Hx Hh (f_searcher f) prestate_new Hs1 Hs2). }
+  intros r c2 Hc2. cbn beta in Hc2. apply satc_ret. lia.
 Qed.
 
 Theorem rfinder_cost :
@@ -399,30 +291,16 @@ Lemma oneshot_lt_rev : (N.of_nat (length h) <? oneshot_rk_below_rev)%N = true ->
 Proof. intros H. apply N.ltb_lt in H. destruct params_cost_ok as (_ & _ & _ & Ho & _). lia. Qed.
 
 Theorem memmem_find_cost :
-  ~ small_period x ->
   satc (memmem_find ar a h x) (fun _ c => c <= K_find * (length h + 1) + 6 * length x + 11).
-Proof.
-  intros Hnsp. unfold memmem_find.
-  destruct (N.of_nat (length h) <? oneshot_rk_below_fwd)%N eqn:E.
-  - pose proof (oneshot_lt_fwd E) as Hl.
-    destruct (Nat.le_gt_cases (length x) (length h)) as [Hle|Hgt].
-    + eapply satc_weaken; [apply (rk_short_cost _ x h 128 Hle Hl)|].
-      cbn beta. intros _ c Hc. change (128 / 2 + 6) with 70 in Hc. unfold K_find. lia.
-    + unfold rk_find. apply Nat.ltb_lt in Hgt. rewrite Hgt. apply satc_ret. lia.
-  - apply finder_cost. exact Hnsp.
-Qed.
-
-Theorem memmem_find_cost_small_period_weak :
-  satc (memmem_find ar a h x) (fun _ c => c <= (length x + K_find) * (length h + 1) + 6 * length x + 11).
 Proof.
   unfold memmem_find.
   destruct (N.of_nat (length h) <? oneshot_rk_below_fwd)%N eqn:E.
   - pose proof (oneshot_lt_fwd E) as Hl.
     destruct (Nat.le_gt_cases (length x) (length h)) as [Hle|Hgt].
     + eapply satc_weaken; [apply (rk_short_cost _ x h 128 Hle Hl)|].
-      cbn beta. intros _ c Hc. change (128 / 2 + 6) with 70 in Hc. unfold K_find. nia.
+      cbn beta. intros _ c Hc. change (128 / 2 + 6) with 70 in Hc. unfold K_find. lia.
     + unfold rk_find. apply Nat.ltb_lt in Hgt. rewrite Hgt. apply satc_ret. lia.
-  - apply finder_cost_small_period_weak.
+  - apply finder_cost.
 Qed.
 
 Theorem memmem_rfind_cost :
@@ -441,13 +319,9 @@ Qed.
 End Top.
 
 Print Assumptions searcher_find_cost.
-Print Assumptions searcher_find_cost_small_pre_weak.
 Print Assumptions rsearcher_rfind_cost.
 Print Assumptions searcher_new_cost.
 Print Assumptions finder_cost.
-Print Assumptions finder_cost_noprefilter.
-Print Assumptions finder_cost_small_period_weak.
 Print Assumptions rfinder_cost.
 Print Assumptions memmem_find_cost.
-Print Assumptions memmem_find_cost_small_period_weak.
 Print Assumptions memmem_rfind_cost.
